@@ -154,19 +154,21 @@ def run_case(desc):
             return out
         tol = 1e-3
         dim = "2D"
+        mk = lambda: SymmetryAnalyzer(at, symmetry_tol=1e-3)
         out.cls("2D")
     else:
         c = sc.prepare(desc, out)
         if c is None:
             return out
-        at, tol, dim = c.at, sc.TOL, "3D"
+        at, tol, dim = c.at, c.otol, "3D"
+        mk = lambda: sc.new_analyzer(c)
         out.cls("3D")
 
     from vlib.case import dhash
     pre = int(dhash(desc), 16) % 3      # a third of the cases each: fresh / material id first / parameter-less sets first
 
     def analyse():
-        an = SymmetryAnalyzer(at, symmetry_tol=tol)
+        an = mk()
         if pre == 1:
             an.get_material_id()
         elif pre == 2:
@@ -177,7 +179,7 @@ def run_case(desc):
     if not ok:
         sg = None
         try:
-            sg = SymmetryAnalyzer(at, symmetry_tol=tol).get_space_group_number()
+            sg = mk().get_space_group_number()
         except Exception:
             pass
         return out.fail("returns-normally", "%s group %s: %r" % (dim, sg, r), key="%s:exc:%s%s" % (dim, "" if dim == "2D" else "%s:" % sg, exc_key(r)))
